@@ -173,8 +173,17 @@ def plan(tier, seed):
                           'seed': seed * 100000 + 6000 + k,
                           'rounds': 3 if tier == 'quick' else 6})
             k += 1
+    # a billiard child that is a parent itself (every pair of start methods),
+    # and an interrupt from the terminal reaching a child
+    pairs = [(o, i) for o in METHODS for i in ('fork', 'spawn')]
+    if tier == 'quick':
+        pairs = [pq for pq in pairs if pq[0] != pq[1] or pq[0] == 'fork']
+    for o, i in pairs:
+        specs.append({'mode': 'nested', 'method': o, 'inner': i, 'api': 'ctx',
+                      'seed': seed * 100000 + 7000 + k})
+        k += 1
     # longest specs first
-    order = {'foreign': 0, 'mt': 1, 'matrix': 2}
+    order = {'foreign': 0, 'mt': 1, 'matrix': 2, 'nested': 3}
     specs.sort(key=lambda s: (order[s['mode']], 0 if s['method'] == 'spawn' else 1))
     return specs
 
@@ -1442,7 +1451,82 @@ def run_mt(env, rounds):
 
 # --------------------------------------------------------------------------
 
+def run_nested(spec, rec):
+    """a child started with `method` starts children of its own with `inner`:
+    what it is told about their end must be as faithful as what the top-level
+    parent is told; then an interrupt (SIGINT, dispositions as billiard left
+    them) ends a child and is reported"""
+    import billiard
+    from vmon import c19_helpers as H2
+    outer, inner = spec['method'], spec['inner']
+    ctx = billiard.get_context(outer)
+    A = {'method': outer, 'inner': inner, 'phase': 'nested'}
+    r, w = ctx.Pipe(False)
+    p = ctx.Process(target=H2.nested_parent, args=(inner, w))
+    p.start()
+    w.close()
+    msg = None
+    if r.poll(170):
+        try:
+            msg = r.recv()
+        except EOFError:
+            msg = None
+    p.join(30)
+    if p.is_alive():
+        _kill(p.pid, signal.SIGKILL)
+        p.join(5)
+    rec.case()
+    if msg is None:
+        rec.violation('nested_parent_silent', A, exitcode=p.exitcode)
+    elif msg[0] == 'raised':
+        rec.violation('call_raised', A, tb=msg[1], partial=msg[2])
+    else:
+        want = {'return': 0, 'exit7': 7, 'kill': -9, 'term': -15}
+        for kind, code, alive, listed, el in msg[1]:
+            rec.count('nested_exits_checked')
+            a = dict(A, path=kind)
+            if code != want[kind]:
+                rec.violation('exitcode_wrong', a, got=code, want=want[kind], join_s=el)
+            if alive:
+                rec.violation('ended_child_reported_alive', a, exitcode=code)
+            if listed:
+                rec.violation('ended_child_listed_active', a, exitcode=code)
+        rec.sig(['nested', outer, inner])
+    # interrupt
+    wd = os.environ.get('VERIF_WORKDIR') or '/tmp'
+    ready = os.path.join(wd, 'c19-int-%d-%s' % (os.getpid(), outer))
+    q = ctx.Process(target=H2.sleeper, args=(ready,))
+    q.start()
+    t_end = time.monotonic() + 60
+    while time.monotonic() < t_end and not os.path.exists(ready):
+        time.sleep(0.02)
+    A2 = {'method': outer, 'phase': 'interrupt', 'path': 'SIGINT'}
+    if not os.path.exists(ready):
+        rec.anomaly('interrupt_child_never_ready', method=outer)
+    else:
+        time.sleep(0.1)
+        os.kill(q.pid, signal.SIGINT)
+        q.join(20)
+        rec.count('interrupts_checked')
+        code = q.exitcode
+        if code is None or q.is_alive():
+            rec.violation('signalled_child_still_running', A2, exitcode=code,
+                          child_state=proc_state(q.pid))
+        elif code not in (1, -2):
+            rec.violation('exitcode_wrong', A2, got=code, want='1 (KeyboardInterrupt) or -2')
+    if q.is_alive():
+        _kill(q.pid, signal.SIGKILL)
+        q.join(5)
+    try:
+        os.unlink(ready)
+    except OSError:
+        pass
+    rec.case()
+
+
 def run_spec(spec, rec):
+    if spec['mode'] == 'nested':
+        return run_nested(spec, rec)
     env = Env(spec, rec)
     if spec['mode'] == 'matrix':
         if spec.get('storm'):
@@ -1459,3 +1543,5 @@ def run_spec(spec, rec):
         run_foreign(env, spec['rounds'])
     elif spec['mode'] == 'mt':
         run_mt(env, spec['rounds'])
+    elif spec['mode'] == 'nested':
+        run_nested(spec, rec)
